@@ -1,4 +1,5 @@
 import PynguinModel.Lemmas.ExportImports
+import PynguinModel.Model.SeedPatch
 /-!
 # C18 — Generated test files pass when run against the module under test
 
@@ -254,3 +255,73 @@ example : runFile floatWitness (fun st => st.exc) (fun _ => true) = some [.passe
 example : (fns (privateExcWitness true [])).map usedExc = [[⟨"m", "_Full", true⟩]] := by decide +kernel
 
 end PynguinModel.ExportImports
+
+/-! ## The seed preamble: export-time seeding agrees with generation-time seeding
+
+Part of "every test passes": the oracles were recorded while `generator._patch_random` was installed; the
+written file installs its own copy of the patch.  A module that is deterministic because it seeds its
+generators explicitly — with whatever value, `0`, `0.0`, `''`, `b''`, `False` included — must see the same
+seeds under pytest. -/
+namespace PynguinModel.SeedPatch
+
+/-- **Seeding agrees.** For every run seed and EVERY argument the function in the written file hands the
+original `random.Random.seed` exactly what the generation-time patch handed it. -/
+theorem export_seed_agrees (seed : Nat) (x : SeedArg) : exportSeed seed x = genSeed seed x := by
+  cases x <;> rfl
+
+/-- **An explicit seed is honoured**, falsy or not: only `None` is replaced by the run seed. -/
+theorem explicit_seed_honoured (seed : Nat) (v : Val) : exportSeed seed (.value v) = .val v := rfl
+
+/-- `None` (an unseeded generator) gets the run seed; an identity-hashed object its type's name. -/
+theorem unseeded_gets_run_seed (seed : Nat) : exportSeed seed .none = .val (runVal seed) := rfl
+theorem id_hashed_gets_type_name (seed : Nat) (m n : String) (t : Bool) :
+    exportSeed seed (.idHashed m n t) = .tyName (qualName m n) := rfl
+
+theorem replay_congr (p q : SeedArg → Eff) (h : ∀ x, p x = q x) (evs : Events) (st : Seeds) :
+    replay p evs st = replay q evs st := by
+  have : p = q := funext h
+  rw [this]
+
+/-- **Histories.** Whatever sequence of seeding events a module performs (`random.Random(x)`, `rng.seed(x)`,
+`random.seed(x)`), from the state the per-test reseeding leaves (`_make_deterministic` at generation time,
+the autouse fixture under pytest), every generator ends up seeded identically — so every value the module
+derives from its generators (`draw`, any function of the seeding state) is the recorded one. -/
+theorem seeding_histories_agree {α : Type} (seed : Nat) (evs : Events) (st : Seeds) (draw : Seeds → α) :
+    draw (replay (exportSeed seed) evs (exportReseed seed st)) =
+      draw (replay (genSeed seed) evs (genReseed seed st)) := by
+  have h : ∀ x, exportSeed seed x = genSeed seed x := export_seed_agrees seed
+  have hf : exportSeed seed = genSeed seed := funext h
+  simp only [exportReseed, genReseed, hf]
+
+/-- The compacted rule `x = x or <seed>` violates the property: for EVERY non-zero run seed a module that
+seeds with `0` (or `0.0`, `''`, `b''`, `False`) gets the run seed instead of its own under pytest. -/
+theorem seed_or_rule_cex (seed : Nat) (h : seed ≠ 0) (r : String) :
+    exportSeedOr seed (.value ⟨r, false⟩) ≠ genSeed seed (.value ⟨r, false⟩) := by
+  simp only [exportSeedOr, SeedArg.truthy, genSeed, runVal]
+  intro hc
+  simp at hc
+  exact h hc.2
+
+/-- … while on truthy explicit seeds, on `None` and on truthy identity-hashed objects the compacted rule cannot
+be told apart from the real one (which is why only falsy explicit seeds expose it). -/
+theorem seed_or_rule_same_on_truthy (seed : Nat) (x : SeedArg) (h : x.truthy = true ∨ x = .none) :
+    exportSeedOr seed x = genSeed seed x := by
+  cases x with
+  | none => simp [exportSeedOr, SeedArg.truthy, genSeed]
+  | value v =>
+    rcases h with h | h
+    · simp [exportSeedOr, h, genSeed]
+    · cases h
+  | idHashed m n t =>
+    rcases h with h | h
+    · simp [exportSeedOr, h, genSeed]
+    · cases h
+
+/-- Non-vacuity: `random.Random(0)` with run seed 20240607, and a two-generator history. -/
+example : exportSeed 20240607 (.value ⟨"0", false⟩) = .val ⟨"0", false⟩ := rfl
+example : exportSeedOr 20240607 (.value ⟨"0", false⟩) = .val ⟨"20240607", true⟩ := by decide
+example : replay (exportSeed 5) [(0, .value ⟨"0", false⟩), (1, .none), (0, .value ⟨"''", false⟩)]
+      (exportReseed 5 [(0, .val ⟨"9", true⟩)]) =
+    [(0, .val ⟨"''", false⟩), (1, .val ⟨"5", true⟩)] := by decide
+
+end PynguinModel.SeedPatch
